@@ -2,6 +2,8 @@ import NixModel.Pure.PropVals
 import NixModel.Lemmas.C10Values
 import NixModel.Lemmas.C10State
 import NixModel.Lemmas.C10Dict
+import NixModel.Pure.PropHandles
+import NixModel.Lemmas.C10Handles
 
 /-!
 # C10 — metadata properties hold typed value lists; sections behave like ordered dicts
@@ -159,14 +161,14 @@ theorem C10_other_properties_untouched {st : State} {op : Op} {k : PKey} {p : Pr
     simp [Op.key?] at hk; subst hk
     simp only [step, lift, delitem, hf]
     exact List.mem_filter.mpr ⟨hq, by simp [hne]⟩
-  | create _ _ | get _ | mksec _ _ | getitem _ | setitem _ _ | contains _ | len | items | reopen =>
+  | create _ _ | get _ | mksec _ _ | getitem _ | setitem _ _ | contains _ | len | items | reopen | iter =>
     simp [Op.key?] at hk
 
 /-- Reading, membership tests, `len`, iteration and reopening the file change nothing. -/
 theorem C10_reads_change_nothing (st : State) (k : PKey) (k' : Key) :
     (step st (.get k)).1 = st ∧ (step st (.getitem k')).1 = st ∧ (step st (.contains k')).1 = st ∧
-    (step st .len).1 = st ∧ (step st .items).1 = st ∧ (step st .reopen).1 = st :=
-  ⟨rfl, rfl, rfl, rfl, rfl, rfl⟩
+    (step st .len).1 = st ∧ (step st .items).1 = st ∧ (step st .reopen).1 = st ∧ (step st .iter).1 = st :=
+  ⟨rfl, rfl, rfl, rfl, rfl, rfl, rfl⟩
 
 /-! ## refusals -/
 
@@ -195,6 +197,7 @@ theorem C10_refused_unchanged {st : State} (hr : Reachable st) {op : Op} (hwf : 
   | len => rfl
   | items => rfl
   | reopen => rfl
+  | iter => rfl
   | mksec name type => exact createSection_error (liftErr _ herr)
   | delitem k => exact delitem_error (liftErr _ herr)
   | setitem key v =>
@@ -468,6 +471,120 @@ theorem C10_dict_delitem {st : State} (hr : Reachable st) {k : PKey}
     simp at hq2 hn
     exact hq2 hn
 
+/-! ## kept `Property` objects: one value list per property, whatever object is used -/
+
+/-- **A history with kept objects is a history of calls on fresh lookups.**  Whatever the
+interleaving of calls through fresh lookups and calls through `Property` objects kept from earlier
+lookups (`hold`, `createHold`), the section is in a state the plain operations can reach — so every
+theorem above holds of it — and no kept object dangles: each stands for exactly one property of the
+section. -/
+theorem C10_kept_objects_refine_lookups {hs : HState} (hr : HReachable hs) :
+    Reachable hs.st ∧
+    (∀ ops : List HOp, (hrun hs ops).st = run hs.st (eraseAll hs ops)) ∧
+    (∀ e ∈ hs.handles, ∃ p ∈ hs.st.props, p.id = e.2 ∧ ∀ q ∈ hs.st.props, q.id = e.2 → q = p) := by
+  refine ⟨hr.reachable, fun ops => hrun_st ops hs, ?_⟩
+  intro e he
+  obtain ⟨p, hp, hid⟩ := hr.hinv.live e he
+  exact ⟨p, hp, hid, fun q hq hqid => eq_of_id hr.hinv.inv.ids hq hp (by rw [hqid, hid])⟩
+
+/-- **A kept object reads the current record.**  In every reachable state, every getter of a kept
+object reports exactly what a fresh lookup of its property — by id or by name — reports: the values
+last stored through *any* object, the data type, the attributes. -/
+theorem C10_kept_object_reads_current {hs : HState} (hr : HReachable hs) {h pid : Nat}
+    (hl : lookupH hs.handles h = some pid) :
+    ∃ p ∈ hs.st.props, p.id = pid ∧
+      hstep hs (.hget h) = (hs, .ok (.prop p)) ∧
+      (hstep hs (.plain (.get (.key (.id pid))))).2 = .ok (.prop p) ∧
+      (hstep hs (.plain (.get (.key (.name p.name))))).2 = .ok (.prop p) := by
+  obtain ⟨p, hp, hid⟩ := hr.hinv.live _ (lookupH_mem hl)
+  have hfid : findProp hs.st (.key (.id pid)) = .ok p := by
+    have := findProp_id_of_mem hr.hinv.inv hp
+    rwa [hid] at this
+  have hfn := findProp_name_of_mem hr.hinv.inv hp
+  exact ⟨p, hp, hid, hget_of hl hfid, plain_get_of hfid, plain_get_of hfn⟩
+
+/-- **Written through one object, read through another.**  After a successful assignment through
+the kept object `h1`, *every* kept object `h2` of the same property — however long ago it was
+obtained and whatever it has read before — returns exactly the values the input denotes; so does a
+fresh lookup. -/
+theorem C10_kept_object_write_read {hs : HState} (hr : HReachable hs) {h1 h2 pid : Nat} {inp : Input}
+    (hwf : inp.WF = true) (hl1 : lookupH hs.handles h1 = some pid) (hl2 : lookupH hs.handles h2 = some pid)
+    (hok : (hstep hs (.hset h1 inp)).2 = .ok .unit) :
+    ∃ p cells, p ∈ hs.st.props ∧ p.id = pid ∧ inp.assigned? = some cells ∧
+      (hstep (hstep hs (.hset h1 inp)).1 (.hget h2)).2 = .ok (.prop { p with vals := cells }) ∧
+      (hstep (hstep hs (.hset h1 inp)).1 (.plain (.get (.key (.name p.name))))).2 =
+        .ok (.prop { p with vals := cells }) := by
+  have hs1 : hstep hs (.hset h1 inp) =
+      ({ hs with st := (step hs.st (.set (.key (.id pid)) inp)).1 }, (step hs.st (.set (.key (.id pid)) inp)).2) := by
+    simp only [hstep, viaHandle, hl1]
+  rw [hs1] at hok ⊢
+  obtain ⟨p, cells, hf, hcells, hf', _⟩ := C10_read_last_stored hr.reachable hwf hok
+  have hr' : Reachable (step hs.st (.set (.key (.id pid)) inp)).1 := hr.reachable.step (by simpa [Op.WF] using hwf)
+  have hp' := findProp_mem hf'
+  have hfn := findProp_name_of_mem hr'.inv hp'
+  refine ⟨p, cells, findProp_mem hf, findProp_id_eq hf, hcells, ?_, ?_⟩
+  · rw [hget_of (hs := { hs with st := (step hs.st (.set (.key (.id pid)) inp)).1 }) hl2 hf']
+  · exact plain_get_of (hs := { hs with st := (step hs.st (.set (.key (.id pid)) inp)).1 }) hfn
+
+/-- **Written through a fresh lookup, read through a kept object.**  After a successful assignment
+through any key (`section.props[k].values = …`, and likewise `section[name] = …`, which is the same
+call on the property found by name), a kept object of that property returns the new values. -/
+theorem C10_kept_object_sees_lookup_write {hs : HState} (hr : HReachable hs) {k : PKey} {h : Nat} {p : PropRec}
+    {inp : Input} (hwf : inp.WF = true) (hf : findProp hs.st k = .ok p) (hl : lookupH hs.handles h = some p.id)
+    (hok : (hstep hs (.plain (.set k inp))).2 = .ok .unit) :
+    ∃ cells, inp.assigned? = some cells ∧
+      (hstep (hstep hs (.plain (.set k inp))).1 (.hget h)).2 = .ok (.prop { p with vals := cells }) := by
+  have hok' : (step hs.st (.set k inp)).2 = .ok .unit := hok
+  obtain ⟨p0, cells, hf0, hcells, hf', _⟩ := C10_read_last_stored hr.reachable hwf hok'
+  have hpp : p0 = p := by rw [hf] at hf0; injection hf0 with h; exact h.symm
+  subst hpp
+  have hr' : Reachable (step hs.st (.set k inp)).1 := hr.reachable.step (by simpa [Op.WF] using hwf)
+  have hp' := findProp_mem hf'
+  have hfid := findProp_id_of_mem hr'.inv hp'
+  have hl' : lookupH (hstep hs (.plain (.set k inp))).1.handles h = some p0.id :=
+    lookupH_prune hl ⟨_, hp', rfl⟩
+  refine ⟨cells, hcells, ?_⟩
+  have hst : (hstep hs (.plain (.set k inp))).1.st = (step hs.st (.set k inp)).1 := rfl
+  rw [hget_of hl' (by rw [hst]; exact hfid)]
+
+/-- **Extending through a kept object appends after what is stored now** — not after what the
+object saw when it was obtained or last read: after `extend_values` through `h1`, every kept object
+`h2` of the property reads the values stored immediately before the call followed by the new ones. -/
+theorem C10_kept_object_extend_appends {hs : HState} (hr : HReachable hs) {h1 h2 pid : Nat} {inp : Input}
+    (hwf : inp.WF = true) (hl1 : lookupH hs.handles h1 = some pid) (hl2 : lookupH hs.handles h2 = some pid)
+    (hok : (hstep hs (.hextend h1 inp)).2 = .ok .unit) :
+    ∃ p cells, p ∈ hs.st.props ∧ p.id = pid ∧ inp.appended? = some cells ∧
+      (hstep (hstep hs (.hextend h1 inp)).1 (.hget h2)).2 = .ok (.prop { p with vals := p.vals ++ cells }) := by
+  have hs1 : hstep hs (.hextend h1 inp) =
+      ({ hs with st := (step hs.st (.extend (.key (.id pid)) inp)).1 },
+       (step hs.st (.extend (.key (.id pid)) inp)).2) := by
+    simp only [hstep, viaHandle, hl1]
+  rw [hs1] at hok ⊢
+  obtain ⟨p, cells, hf, hcells, hf'⟩ := C10_extend_appends hr.reachable hwf hok
+  refine ⟨p, cells, findProp_mem hf, findProp_id_eq hf, hcells, ?_⟩
+  rw [hget_of (hs := { hs with st := (step hs.st (.extend (.key (.id pid)) inp)).1 }) hl2 hf']
+
+/-- A kept object stays bound to its property across every call that does not delete that property,
+close the file or rebind the program variable: calls through any kept object, and calls through
+fresh lookups after which the property still exists. -/
+theorem C10_kept_object_stays_bound {hs : HState} {h pid : Nat} (hl : lookupH hs.handles h = some pid) :
+    (∀ h' inp, lookupH (hstep hs (.hset h' inp)).1.handles h = some pid) ∧
+    (∀ h' inp, lookupH (hstep hs (.hextend h' inp)).1.handles h = some pid) ∧
+    (∀ h', lookupH (hstep hs (.hclear h')).1.handles h = some pid) ∧
+    (∀ h', lookupH (hstep hs (.hget h')).1.handles h = some pid) ∧
+    (∀ op, op ≠ .reopen → (∃ p ∈ (step hs.st op).1.props, p.id = pid) →
+      lookupH (hstep hs (.plain op)).1.handles h = some pid) := by
+  have via : ∀ h' mk, lookupH (viaHandle hs h' mk).1.handles h = some pid := by
+    intro h' mk
+    unfold viaHandle
+    cases lookupH hs.handles h' <;> exact hl
+  refine ⟨fun h' inp => via h' _, fun h' inp => via h' _, fun h' => via h' _, fun h' => via h' _, ?_⟩
+  intro op hne hlive
+  have : (hstep hs (.plain op)).1.handles = prune (step hs.st op).1 hs.handles := by
+    cases op <;> first | rfl | exact absurd rfl hne
+  rw [this]
+  exact lookupH_prune hl hlive
+
 /-! ## non-vacuity -/
 
 /-- a concrete history: create, refuse `True` into the int property, clear, extend, reopen, extend -/
@@ -492,5 +609,29 @@ example : (step State.init (.create ['p'] (.ndarray (.num .int32) [2] [.i 1, .i 
     (State.init, .error .typeError) := by rfl
 example : ((step State.init (.create ['p'] (.ndarray (.num .int64) [2] [.i 1, .i 2]))).1.props.map (·.vals)) =
     [[.i 1, .i 2]] := by rfl
+
+/-- two objects of one property: `0` is what `create_property` returned, `1` a later lookup; the
+property is assigned through the dictionary view, extended through `0`, cleared through `1`, extended
+through `0` again -/
+def demoHOps : List HOp :=
+  [.createHold 0 ['p'] (.list [.pyInt 1, .pyInt 2]),
+   .hold 1 (.idx 0),
+   .plain (.setitem ['p'] (.val (.list [.pyInt 3]))),
+   .hextend 0 (.list [.pyInt 4, .pyInt 5]),
+   .hclear 1,
+   .hextend 0 (.scalar (.pyInt 6)),
+   .plain (.create ['q'] (.scalar (.pyStr ['x']))),
+   .hold 2 (.key (.name ['q'])),
+   .plain (.delitem (.key (.name ['q'])))]
+
+example : HReachable (hrun HState.init demoHOps) := ⟨demoHOps, by decide, rfl⟩
+example : (hrun HState.init (demoHOps.take 4)).st.props.map (·.vals) = [[.i 3, .i 4, .i 5]] := by decide
+example : (hrun HState.init demoHOps).st.props.map (·.vals) = [[.i 6]] := by decide
+example : (hrun HState.init demoHOps).handles = [(1, 0), (0, 0)] := by decide
+example : lookupH (hrun HState.init (demoHOps.take 2)).handles 0 = some 0 ∧
+    lookupH (hrun HState.init (demoHOps.take 2)).handles 1 = some 0 := by decide
+example : eraseAll HState.init (demoHOps.take 4) =
+    [.create ['p'] (.list [.pyInt 1, .pyInt 2]), .get (.idx 0), .setitem ['p'] (.val (.list [.pyInt 3])),
+     .extend (.key (.id 0)) (.list [.pyInt 4, .pyInt 5])] := by rfl
 
 end Nix.C10
